@@ -43,8 +43,8 @@ end
 mutual
 /-- Hybrid-free statements: all expressions (assignment targets included) hybrid-free, declared names and loop
     variables outside `h_tmp…`, loop counters of type ut32 (the pure model hardcodes the undeclared special
-    identifiers' type; a declared counter of another type is lowered by the hybrid model only), no expression
-    statement and no `return` (neither has a counterpart in `compileStmt`). -/
+    identifiers' type; a declared counter of another type is lowered by the hybrid model only), expression
+    statements only of a hybrid-free (pure) value, no `return`. -/
 def HybFreeS : CStmt → Bool
   | .decl _ n none => !isHTmp n
   | .decl _ n (some e) => !isHTmp n && HybFree e
@@ -55,7 +55,7 @@ def HybFreeS : CStmt → Bool
   | .for_ v c _ b => !isHTmp v && HybFree c && HybFreeSs b && loopVarTy v c == utT
   | .jump e => HybFree e
   | .skip _ => true
-  | .exprstmt _ => false
+  | .exprstmt e => HybFree e
   | .ret _ => false
   | .vcall _ _ _ _ => false
 def HybFreeSs : List CStmt → Bool
